@@ -21,6 +21,9 @@ def main():
         mod = importlib.import_module(f'mc.props.{a.prop.lower()}')
         if a.replay:
             rec = json.load(open(a.replay))
+            if rec['record'].get('engine') == 'crash':
+                from mc import core
+                return core.replay_crash(rec['record'])
             return mod.replay(rec['record'])
         from mc import core
         core.REPLAYER = getattr(mod, 'replay', None)
